@@ -21,8 +21,70 @@ type RunOpts struct {
 	Tag     string
 	// Corpus: hand-picked transactional log shapes (see Crafted), run first under ReadCommitted over every start
 	// offset x every split into up to 3 responses (strided down to CorpusPer cases each) x index order
-	Corpus    []string
+	Corpus    []CorpusItem
 	CorpusPer int
+	// NRandomIndex: random transactional shapes with 3-5 transactions in flight at once, the broker's index in a
+	// random permutation, sometimes with the head of the log deleted inside a transaction
+	NRandomIndex int
+}
+
+// CorpusItem: a hand-picked transactional shape (Crafted), optionally with the first Cut units deleted (non-zero
+// LogStartOffset, open transactions keep their original first offset), run over start offsets x splits x index
+// orders; Perms: every permutation of the broker's index instead of ascending/descending.
+type CorpusItem struct {
+	Spec  string
+	Cut   int
+	Perms bool
+}
+
+func permutations(n int) [][]int {
+	if n == 0 {
+		return [][]int{{}}
+	}
+	var out [][]int
+	for _, p := range permutations(n - 1) {
+		for i := 0; i <= len(p); i++ {
+			q := append(append(append([]int{}, p[:i]...), n-1), p[i:]...)
+			out = append(out, q)
+		}
+	}
+	return out
+}
+
+func randomIndexSpec(rng *rand.Rand) string {
+	k := 3 + rng.Intn(3)
+	var toks []string
+	for _, p := range rng.Perm(k) {
+		toks = append(toks, fmt.Sprintf("T%d", p+1))
+		if rng.Intn(3) == 0 {
+			toks = append(toks, "N")
+		}
+	}
+	for i := rng.Intn(3); i > 0; i-- {
+		toks = append(toks, fmt.Sprintf("T%d", 1+rng.Intn(k)))
+	}
+	for _, p := range rng.Perm(k) {
+		m := "A"
+		if rng.Intn(10) < 3 {
+			m = "C"
+		}
+		toks = append(toks, fmt.Sprintf("%s%d", m, p+1))
+		if rng.Intn(3) == 0 {
+			toks = append(toks, fmt.Sprintf("T%d", 1+rng.Intn(k)))
+		}
+	}
+	// close whatever was reopened
+	for p := 1; p <= k; p++ {
+		toks = append(toks, fmt.Sprintf("C%d", p))
+	}
+	out := ""
+	for i, t := range toks {
+		if i > 0 {
+			out += " "
+		}
+		out += t
+	}
+	return out
 }
 
 var errCodes = []int16{3, 5, 6, 9, 7, 1, -1, 43} // redispatch class, report-and-redispatch class, out of range
@@ -172,29 +234,68 @@ func RunAll(o RunOpts) {
 		CaseType: "pcase", MismatchFn: "mismatches_parse", ShardSize: 40}
 	perFormat := o.NParse / len(o.Formats)
 	var scs []ParseScenario
-	for _, spec := range o.Corpus {
-		g := Crafted(rng, spec)
+	txnVersions := fetchVersionsFor(FTxn, true) // 4, 5, 7, 10, 11: LogStartOffset is on the wire from 5 on
+	nv := 0
+	nextVersion := func() int16 { nv++; return txnVersions[nv%len(txnVersions)] }
+	for _, item := range o.Corpus {
+		g := Crafted(rng, item.Spec).Truncate(item.Cut)
 		gg := g
 		var all []ParseScenario
-		for _, s := range starts(g.Log) {
-			for _, cs := range cutScripts(len(g.Log), 2) {
-				order := 1 + len(all)%2
-				script := []Directive{}
-				for _, k := range cs {
-					script = append(script, Directive{Whole: k, IndexOrder: order})
+		if item.Perms {
+			ss := starts(g.Log)
+			if len(ss) > 3 {
+				ss = ss[:3]
+			}
+			for _, perm := range permutations(len(g.Txns)) {
+				for si, s := range ss {
+					script := []Directive{}
+					if (len(all)+si)%3 == 1 {
+						script = append(script, Directive{Whole: 1 + len(all)%len(g.Log), IndexOrder: 3, IndexPerm: perm})
+					}
+					for len(script) < 4 {
+						script = append(script, Directive{IndexOrder: 3, IndexPerm: perm})
+					}
+					all = append(all, ParseScenario{Gen: &gg, ReadCommitted: true, FetchDefault: 1 << 20, Start: s, Script: script})
 				}
-				for len(script) < 4 {
-					script = append(script, Directive{IndexOrder: order})
+			}
+		} else {
+			for _, s := range starts(g.Log) {
+				for _, cs := range cutScripts(len(g.Log), 2) {
+					order := 1 + len(all)%2
+					script := []Directive{}
+					for _, k := range cs {
+						script = append(script, Directive{Whole: k, IndexOrder: order})
+					}
+					for len(script) < 4 {
+						script = append(script, Directive{IndexOrder: order})
+					}
+					all = append(all, ParseScenario{Gen: &gg, ReadCommitted: true, FetchDefault: 1 << 20, Start: s, Script: script})
 				}
-				all = append(all, ParseScenario{Gen: &gg, ReadCommitted: true, FetchDefault: 1 << 20, Start: s, Script: script})
 			}
 		}
 		stride := len(all)/o.CorpusPer + 1
 		for i := rng.Intn(stride); i < len(all); i += stride {
 			sc := all[i]
-			sc.Version = pick16(rng, fetchVersionsFor(FTxn, true))
+			sc.Version = nextVersion()
 			scs = append(scs, sc)
 		}
+	}
+	for i := 0; i < o.NRandomIndex; i++ {
+		g := Crafted(rng, randomIndexSpec(rng))
+		if rng.Intn(3) == 0 {
+			g = g.Truncate(1 + rng.Intn(3))
+		}
+		gg := g
+		perm := rng.Perm(len(g.Txns))
+		ss := starts(g.Log)
+		sc := ParseScenario{Gen: &gg, ReadCommitted: rng.Intn(8) != 0, FetchDefault: 1 << 20, Start: ss[rng.Intn(4)%len(ss)], Version: nextVersion()}
+		if rng.Intn(3) == 0 {
+			sc.Script = append(sc.Script, Directive{Whole: 1 + rng.Intn(len(g.Log)), IndexOrder: 3, IndexPerm: perm})
+		}
+		for len(sc.Script) < 4 {
+			sc.Script = append(sc.Script, Directive{IndexOrder: 3, IndexPerm: perm})
+		}
+		scs = append(scs, sc)
 	}
 	for _, f := range o.Formats {
 		count := 0
@@ -230,6 +331,9 @@ func RunAll(o RunOpts) {
 		}
 		for count < perFormat {
 			g := Gen(rng, f, 40)
+			if (f == FTxn || f == FCtrl) && len(g.Log) > 2 && rng.Intn(4) == 0 {
+				g = g.Truncate(1 + rng.Intn(len(g.Log)-1)) // head of the log deleted, possibly inside a transaction
+			}
 			gg := g
 			rc := rng.Intn(100) < o.RCProb
 			ss := starts(g.Log)
@@ -258,6 +362,9 @@ func RunAll(o RunOpts) {
 	for i := 0; i < o.NE2E; i++ {
 		f := o.Formats[i%len(o.Formats)]
 		g := Gen(rng, f, 30)
+		if (f == FTxn || f == FCtrl) && len(g.Log) > 2 && rng.Intn(4) == 0 {
+			g = g.Truncate(1 + rng.Intn(len(g.Log)-1))
+		}
 		gg := g
 		rc := rng.Intn(100) < o.RCProb
 		kvs := kafkaVersionsFor(f, rc)
@@ -295,6 +402,30 @@ func RunAll(o RunOpts) {
 		}
 		if rng.Intn(4) == 0 {
 			sc.Extra = 1 + rng.Intn(2)
+		}
+		if i%6 == 5 && g.Log.NRecords() >= 2 {
+			// one partition loses its leader and its re-dispatch fails once or twice (no leader elected yet) while
+			// 1-2 sibling partitions on the same broker worker must keep receiving
+			sc.Extra = 1 + rng.Intn(2)
+			sc.Req = sarama.OffsetOldest
+			sc.LeaderLoss = true
+			// enough failing attempts for a miscounted reference to matter: one per sibling, sometimes one more
+			lost := Directive{Fault: 1, Err: 6, MetaFail: sc.Extra + 1 + rng.Intn(2)}
+			pos := rng.Intn(2)
+			if pos > len(sc.Script) {
+				pos = len(sc.Script)
+			}
+			var script []Directive
+			if pos == 1 {
+				script = append(script, Directive{Whole: 1})
+			}
+			script = append(script, lost)
+			for _, d := range sc.Script {
+				if d.Fault != 5 && d.Fault != 6 && !(d.Fault == 1 && d.Err == 1) {
+					script = append(script, d)
+				}
+			}
+			sc.Script = script
 		}
 		es = append(es, sc)
 	}
@@ -379,6 +510,9 @@ func E2EMonitor(sc E2EScenario, res E2EResult) *cf.Monitor {
 	if !res.Complete && !res.Closed {
 		return &cf.Monitor{Signature: "e2e:stalled", What: fmt.Sprintf("delivery stopped after %d messages although the partition stayed reachable", len(res.Delivered))}
 	}
+	if res.SiblingStalled {
+		return &cf.Monitor{Signature: "progress:sibling-stalled", What: "a further partition served by the same broker worker stopped receiving records although nothing happened to it (its leader never changed)"}
+	}
 	if !res.ExtraOK {
 		return &cf.Monitor{Signature: "e2e:other-partition", What: "a second partition served by the same broker worker was not delivered exactly"}
 	}
@@ -387,6 +521,14 @@ func E2EMonitor(sc E2EScenario, res E2EResult) *cf.Monitor {
 
 func runOneE2E(seed int64, sc E2EScenario) work {
 	res := RunE2E(seed, sc)
+	if res.SiblingStalled {
+		// a stall is judged by a time-out: it counts only if the same scenario stalls again
+		sc2 := sc
+		sc2.Topic = sc.Topic + "-again"
+		if res2 := RunE2E(seed, sc2); !res2.SiblingStalled {
+			res = res2
+		}
+	}
 	js := E2EJSON(sc, res)
 	return work{term: E2ECoq(sc, res), side: cf.Sidecar{Case: js, Kind: "e2e/" + js.Format, Nontrivial: len(res.Delivered) > 0, Monitor: E2EMonitor(sc, res)}}
 }
